@@ -8,7 +8,7 @@ E2/E3: the same renderings as real strings, English selected and autodetected; e
 import calendar
 import datetime
 
-from .. import absfam, core
+from .. import absfam, core, neighbours
 
 LEVEL = "model_checking"
 MON = ["January", "February", "March", "April", "May", "June", "July", "August", "September", "October",
@@ -194,7 +194,8 @@ def make_cases(ctx, tzrows):
 
 def describe(c):
     return {"call": "DateDataParser(%s, settings=%r).get_date_data(%r)" % (
-        ", ".join("%s=%r" % kv for kv in c["kw"].items()), c["settings"], c["s"]), "kind": c["kind"]}
+        ", ".join("%s=%r" % kv for kv in c["kw"].items()), c["settings"], c["s"]), "kind": c["kind"],
+        "earlier_calls_of_the_process": neighbours.describe_pre(c)}
 
 
 def run(ctx):
@@ -209,7 +210,11 @@ def run(ctx):
     mc.require_clean()
     for inv in mc.invariant_violated:
         ctx.violation({"tlc_counterexample": mc.counterexample()[-1:]}, "TLC refuted invariant %s of P_C01" % inv)
-    cases = core.replay_cases(ctx) or make_cases(ctx, None)
+    cases = core.replay_cases(ctx)
+    if not cases:
+        cases = make_cases(ctx, None)
+        # a share of the cases runs after a history of neighbouring calls (other clock spellings first of all)
+        neighbours.attach(ctx.rng, cases, 0.12, weights={"clock": 5, "zone": 2})
     results = core.run_cases(ctx, "harness.lib", "call_parse", cases)
     if not ctx.replay:
         # TIMEZONE='local' (the default): the process-local zone comes from the TZ environment of the workers
